@@ -120,6 +120,26 @@ def margin(pairs, extra=()):
     return implies(conj(bounded), conj(ds))
 
 
+class _Rec:
+    def __init__(self):
+        self.seen = set()
+
+    def wrap(self, d):
+        rec = self
+
+        class D(dict):
+            def __getitem__(self, k):
+                rec.seen.add(k)
+                return dict.__getitem__(self, k)
+        return D(d)
+
+
+def rec_params(ref):
+    P = {k: np.array([-1.0, 1.0]) if k.endswith("range") else 1.0 for k in ref.params}
+    P.update(dt=1.0, timestep=1.0, init_qpos=np.zeros(40), body_mass=np.ones(40))
+    return P
+
+
 def fast_model_leaf(res, arr, av, declared, jnp):
     """value of an input leaf under the model; symbols the model does not mention are 0 (no per-element model evaluation)"""
     import z3
@@ -168,6 +188,17 @@ class EnvCheck:
         self.ref = R.REFS[name]()
         self.t0 = time.time()
         self.phys = None
+        # the real-physics helper takes 30-50 s (XLA compilation of mjx.step): it is started speculatively when the v5 semantics reads
+        # force-type leaves (cfrc_*, cacc) and killed as soon as the measured write-set shows that it is not needed
+        if ck.only is None or ck.only == f"{self.eid}.reads_only_written_fields":
+            rec = _Rec()
+            try:
+                z = {f: np.zeros((40, 12)) for f in R.FIELDS}
+                self.ref.obs(R.num_ops(), rec_params(self.ref), rec.wrap(z))
+            except Exception:  # noqa: BLE001
+                pass
+            if any(f.startswith(("cfrc", "cacc")) for f in rec.seen):
+                self.start_physics()
         # ---- reference vs the installed Gymnasium
         ok, pts, bad, self.G = R.validate(self.ref, n_physical=3 if not ck.thorough else 6, n_synthetic=4 if not ck.thorough else 12, seed=ck.seed)
         ck.fact(f"ref.{self.eid}.validated_against_gymnasium", ok, f"{pts} points (physical trajectories and synthetic data through the installed {self.ref.gym_id} "
@@ -286,8 +317,11 @@ class EnvCheck:
         W = set(st.written["step"]) | set(st.written["forward"])
         self.derived_reads = sorted(f for f in self.reads if f not in STATE_FIELDS)
         self.unwritten = [f for f in self.derived_reads if f not in W]
-        if self.unwritten and (ck.only is None or ck.only == f"{self.eid}.reads_only_written_fields"):
+        if self.unwritten and self.phys is None and (ck.only is None or ck.only == f"{self.eid}.reads_only_written_fields"):
             self.start_physics()
+        if not self.unwritten and self.phys is not None:
+            self.phys.kill()
+            self.phys = None
 
     def formulas(self):
         from jaxsmt.core import conj, eq_arr, eq_elem, neg
@@ -298,7 +332,7 @@ class EnvCheck:
         it = Interp()
         zero = {}
         for n, av in zip(tr.in_names, tr.in_avals):
-            if n not in used and not n.startswith(("env_dt", "env_model_opt_timestep", "env_init_qpos", "env_model_body_mass", "s_sim_state", "s2_sim_state")) \
+            if n not in used and n != "a" and not n.startswith(("env_dt", "env_model_opt_timestep", "env_init_qpos", "env_model_body_mass", "s_sim_state", "s2_sim_state")) \
                     and "key" not in str(av.dtype) and not any(n == "env_" + k for k in ref.params):
                 zero[n] = it.lift(np.zeros(av.shape, av.dtype))
         S = tr.symbols(it, given=zero)
@@ -310,11 +344,14 @@ class EnvCheck:
         a = S["a"]
         fs = int(env.frame_skip)
         link = [P["dt"] == P["timestep"] * fs, P["timestep"] > 0]
+        # every successor produced by transition() carries the action as its control (obligation mujoco.transition_frame_skip)
+        link += [eq_elem(x, y) for x, y in zip(flat_obj(D2["ctrl"]), flat_obj(a))]
+        if "env_model_body_mass" in used:
+            bm = flat_obj(P["body_mass"])
+            link += [m >= 0 for m in bm] + [sum(bm[1:], bm[0]) >= 1]
         self.link = link
-        ck.witness(f"witness.{eid}.dt_is_timestep_times_frame_skip", link)
-        # the v5 step() evaluates the control cost etc. on data.ctrl == action: the successor record carries the action as its control
+        ck.witness(f"witness.{eid}.assumptions_satisfiable", link)
         D2r = dict(D2)
-        D2r["ctrl"] = a
         r_obs = np.array(ref.obs(o, P, D2), dtype=object)
         r_rew, r_term, r_info = ref.step(o, P, D, a, D2r)
         r_sinfo = ref.reset_info(o, P, D2)
@@ -593,12 +630,14 @@ def physics_main(name, seed, path):
         g = gym.make(ref.gym_id).unwrapped
         g.reset(seed=seed)
         g.action_space.seed(seed)
-        for _ in range(4):
-            g.step(g.action_space.sample())
-        q, v = g.data.qpos.copy(), g.data.qvel.copy()
-        g.set_state(q, v)
-        a = g.action_space.sample()
-        ob_g, r_g, term_g, _, info_g = g.step(a)
+        for i in range(300):       # a step whose successor is in contact (external contact forces non-zero in Gymnasium)
+            q, v = g.data.qpos.copy(), g.data.qvel.copy()
+            a = g.action_space.sample()
+            g.set_state(q, v)
+            ob_g, r_g, term_g, _, info_g = g.step(a)
+            if i >= 3 and np.abs(g.data.cfrc_ext).max() > 1.0:
+                break
+        rec["gymnasium_steps_before_the_compared_step"] = i
         env = getattr(lm, name)()
         s0 = env.initial(key=jr.key(seed))
         s = eqx.tree_at(lambda s: s.sim_state, s0, s0.sim_state.replace(qpos=jnp.asarray(q, jnp.float32), qvel=jnp.asarray(v, jnp.float32)))
